@@ -24,7 +24,7 @@ NA = {
 CHECKS = {
  'C01': dict(
    category='exploration', design_ref='DESIGN.md 3.1',
-   text='Seeded search over schedules: 1-3 simulated host threads parse text lists on one shared engine (4 factory configurations, engine.copy() and yaql.eval() paths) under a baton scheduler that can pre-empt before every token fetch or at every Python line of ply/yaql; all interleavings of sampled short text pairs are enumerated, the rest sampled; single-thread histories include parses after failed parses. Every outcome is compared with the same text parsed on a fresh engine built for it alone. A clean batch is evidence, not proof.',
+   text='Seeded search over schedules: 1-3 simulated host threads parse text lists on one shared engine (4 factory configurations, engine.copy() and yaql.eval() paths) under a baton scheduler that can pre-empt before every token fetch or at every Python line of ply/yaql; all interleavings of sampled short text pairs are enumerated, the rest sampled; single-thread histories include parses after failed parses and direct use of engine.lexer; one run in twelve uses a cold engine (deep copy of a pristine prototype) so that first-use races inside the engine are reachable. Every outcome is compared with the same text parsed on a fresh engine built for it alone. A clean batch is evidence, not proof.',
    note='Trusted: the baton scheduler (real threads, one runs at a time), ply itself, the fresh-engine reference. Pre-emption only at token fetches / Python line boundaries of ply+yaql frames.',
    technique='deterministic simulation: seeded baton scheduler over real threads at token-fetch / line granularity, fresh-engine oracle, schedule shrinking + replay',
    quick_timeout=900, thorough_timeout=21600),
@@ -36,37 +36,37 @@ CHECKS = {
    quick_timeout=900, thorough_timeout=21600),
  'C17': dict(
    category='exploration', design_ref='DESIGN.md 3.6',
-   text='Seeded operation histories (set, delete, child, multi, linked, register, exclusive register, delete_function, plus operations that legitimately fail: deleting missing variables through fan-out contexts, invalid methods, child creation on linked contexts over non-plain contexts) over forests of <=12 contexts mixing the three classes; after EVERY operation all contexts x {$, $1, empty, a, $a, b} x {f, g, f_, h, nosuch} are probed (ctx[name], get_data with default / own layer only, in, keys, collect_functions, get_functions, spec in ctx) and compared with a flattened-layers reference model written from the statement. Sampling, not proof.',
+   text='Seeded operation histories (set, delete, child, multi, linked, register, exclusive register, delete_function, plus operations that legitimately fail: deleting missing variables through fan-out contexts, invalid methods, child creation on linked contexts over non-plain contexts) over forests of <=12 contexts mixing the three classes; after EVERY operation all contexts x {$, $1, empty, a, $a, b} x {f, g, f_, h, nosuch} are probed (ctx[name], get_data with default / own layer only, in, keys, collect_functions and get_functions plain, kind-filtered and with the naming convention, spec in ctx) and compared with a flattened-layers reference model written from the statement. Sampling, not proof.',
    note='Trusted: the ~80-line reference model (layers = merge for multi, concatenation for linked; writes go to the first plain context of the own layer). Two narrow relaxations (partial delete through fan-out contexts; exclusivity after delete_function) adopt observed state for exactly the touched name.',
    technique='deterministic simulation of host operation histories with injected failing operations, step-by-step comparison against an executable flattened-layers reference model, history shrinking + replay',
    quick_timeout=900, thorough_timeout=21600),
  'C20': dict(
    category='exploration', design_ref='DESIGN.md 3.8',
-   text='Narrow claim: the simulated part is the process environment the date/time code could consult. Every clause of the statement (timestamp round trips, utc, (d+t)-t, (d+t)-d, =, !=, <, <=, >, >=, unit properties, timespan(microseconds) round trip, naive host datetimes as UTC) is evaluated as a short history whose steps run under simulated local zones (TZ/tzset: fixed offsets to +-23:59, DST rules with transitions placed on the generated dates), changed between steps, and checked (a) against an integer-microsecond instant model and (b) for identical results under every zone assignment. The suite only runs under UTC, where naive-as-UTC and naive-as-local are indistinguishable. Sampling over years 1..9999, offsets at minute resolution, signed timespans.',
+   text='Narrow claim: the simulated part is the process environment the date/time code could consult. Every clause of the statement (timestamp round trips, utc, (d+t)-t, (d+t)-d, =, !=, <, <=, >, >=, unit properties, timespan(microseconds) round trip, naive host datetimes as UTC) is evaluated as a short history whose steps run under simulated local zones (TZ/tzset: fixed offsets to +-23:59, DST rules with transitions placed on the generated dates), changed between steps, and checked (a) against an integer-microsecond instant model and (b) for identical results under every zone assignment. The suite only runs under UTC, where naive-as-UTC and naive-as-local are indistinguishable. Sampling over years 1..9999 (incl. the range edges, where the library may refuse but not lie), offsets at minute resolution, signed timespans, default and legacy context, host zones with varying offset for the two round-trip identities.',
    note='Trusted: Python integer arithmetic for the instant model, glibc parsing of POSIX TZ strings. now()/localtz() are environment functions by design and are not evaluated. Thread-dependent date/time state is covered by C18, not here.',
    technique='deterministic simulation of the process time-zone environment (seeded zone changes between history steps) with an instant-arithmetic reference model and a zone-independence metamorphic oracle, shrinking + replay',
    quick_timeout=900, thorough_timeout=21600),
  'C14': dict(
    category='exploration', design_ref='DESIGN.md 3.5',
-   text='Seeded pipelines of <=4 of the listed streaming operators (plus first/any/all/indexOf/indexWhere terminals and join outer side) over an instrumented endless source (and a second one for zip/concat), consumed by a simulated client that takes k in 0..6 results and cancels (next()*k + close, .take(k) with finalisation, or a scalar terminal), with and without yaql.limitIterators, data passed as $ or as a context variable. Faults: no EOF, a read error armed 1 or 3 positions beyond the demand, pull / lambda budgets that turn materialisation or a stall into a finite replayable event. Oracle: pulls per source <= demand of an executable lazy reference model + 1, applications per lambda <= model + 1, armed read error never surfaces. On the unchanged tree the model matches exactly (0 value mismatches in 37k cases).',
+   text='Seeded pipelines of <=4 of the listed streaming operators (plus first/any/all/indexOf/indexWhere terminals and join outer side) over an instrumented endless source (and a second one for zip/concat), (also handed out by a yaqlized host object or as a re-iterable), consumed by a simulated client that takes k in 0..6 results and cancels (next()*k + close, .take(k) with finalisation, or a scalar terminal), with and without yaql.limitIterators, data passed as $ or as a context variable. Faults: no EOF, a read error armed 1 or 3 positions beyond the demand, pull / lambda budgets that turn materialisation or a stall into a finite replayable event. Oracle: pulls per source <= demand of an executable lazy reference model + 1, applications per lambda <= model + 1, armed read error never surfaces. On the unchanged tree the model matches exactly (0 value mismatches in 37k cases).',
    note='Trusted: the lazy reference model (one Python generator per operator). Value mismatches give no verdict (C13). Loops that neither pull nor apply a lambda are only bounded by a wall guard and reported as HARNESS-ERROR, never as exit 0.',
    technique='deterministic simulation with fault injection on host streams (endless / failing / budgeted SimSource, cancelling client), lazy executable reference model as consumption oracle, pipeline shrinking + replay',
    quick_timeout=900, thorough_timeout=21600),
  'C08': dict(
    category='fault_enumeration', design_ref='DESIGN.md 3.3',
-   text='Fault enumeration over the introspected registry: every visible parameter of every function of the default and legacy chains whose declared type accepts an iterator/sequence/set/mapping (187 + 212 positions, decided by the type check itself, so new functions are covered automatically) is fed in turn by endless / boundary-length (N-1, N, N+1) instrumented sources, sized collections at the boundary and library-made endless generators (itertools proxied to budgeted sources), for N in {0,1,2,3,7,10,100}, with consumer/nesting wrappers (toList, len, first, where(false).first, [x], {a=>x}, {x=>1} as a key, [[x]], select([$, [$,$]])), conversion on/off; a second target list feeds the stream as the RESULT of every Lambda-typed parameter (producer/selector), boolean options enumerated. Monitors: pulls per source <= N+1, termination inside logical budgets (50(N+1) pulls, 4M call events), no collection > N at any depth of a result. Quota family: growth chains (+, *, join, replace, accumulate, toDict, groupBy, distinct, memorize, format) incl. non-ASCII strings, over-quota host values and literals, Q placed just above the operands: no measured argument seen by any payload and no returned value exceeds Q; huge repetitions must refuse with a tracemalloc peak < 5 MB. Every position is visited each quick run; other choices are seeded.',
+   text='Fault enumeration over the introspected registry: every visible parameter of every function of the default and legacy chains whose declared type accepts an iterator/sequence/set/mapping (187 + 212 positions, decided by the type check itself, so new functions are covered automatically) is fed in turn by endless / boundary-length (N-1, N, N+1) instrumented sources, sized collections at the boundary and library-made endless generators (itertools proxied to budgeted sources), for N in {0,1,2,3,7,10,100}, with consumer/nesting wrappers (toList, len, first, where(false).first, [x], {a=>x}, {x=>1} as a key, [[x]], select([$, [$,$]])), conversion on/off; a second target list feeds the stream as the RESULT of every Lambda-typed parameter (producer/selector), boolean options enumerated. Monitors: pulls per source <= N+1, termination inside logical budgets (50(N+1) pulls, 4M call events), no collection > N at any depth of a result. Quota family: growth chains (+, *, join, replace, accumulate, toDict, groupBy, distinct, memorize, format) incl. non-ASCII strings, over-quota host values and literals, Q placed just above the operands: no measured argument seen by any payload and no returned value exceeds Q; huge repetitions must refuse with a tracemalloc peak < 5 MB. Contexts composed with a previously used bare context, unresolvable calls on the lazy sequence, endless streams of empty iterators and a nested-quota family (oversized members inside small host containers) are part of the mix. Every position is visited each quick run; other choices are seeded.',
    note='Trusted: payload shims measuring sys.getsizeof of arguments, SimSource pull counters, sys.settrace call-event counter as logical clock, RLIMIT_AS 6 GB per worker. CPython cannot make a single allocation fail, so memory is monitored, not faulted.',
    technique='deterministic simulation with fault enumeration: instrumented endless/oversize/boundary streams injected at every introspected collection parameter, logical step budgets instead of a watchdog, payload-argument size monitors, tracemalloc, shrinking + replay (with process-history prelude)',
    quick_timeout=900, thorough_timeout=21600),
  'C09': dict(
    category='exploration', design_ref='DESIGN.md 3.4',
-   text='Seeded host histories: 2-6 statements (introspective calls of every library function on mutable sub-collections of the document in every collection-typed position; let/with/unpack/def/-> and host functions writing through yaql_interface / context; 744 expressions harvested from the test suite), 1-3 generated mutable documents, <=12 evaluations mixing input conversion on/off, output conversion on/off and target context = fresh child / host layer itself / persistent child / none; odd-numbered histories abort evaluations at arbitrary points (host stream failing at position p, probe function raising on its n-th call, iterator limit or quota tripping part-way, lazy result abandoned after j items). After EVERY operation: documents deeply equal their snapshots; all contexts of the host chain have the same variables, function sets and exclusive names except $ of the context given to evaluate; converted results alias no host container (identity walk, then mutate-in-place and re-check); the same (statement, document, mode) gives the result of its first fault-free occurrence, also after aborted evaluations.',
+   text='Seeded host histories: 2-6 statements (introspective calls of every library function on mutable sub-collections of the document in every collection-typed position; let/with/unpack/def/-> and host functions writing through yaql_interface / context; 744 expressions harvested from the test suite), 1-3 generated mutable documents (incl. a collections.defaultdict and dicts with non-keyword keys), <=12 evaluations mixing input conversion on/off, output conversion on/off and target context = fresh child / host layer itself / persistent child / none, on create_context chains and on a hand-built chain without finalizer, through Statement.evaluate, engine(text, options), YaqlInterface and yaql.eval; the host may change its own document in place between evaluations and every fourth evaluation is repeated on an equal deep copy; odd-numbered histories abort evaluations at arbitrary points (host stream failing at position p, probe function raising on its n-th call, iterator limit or quota tripping part-way, lazy result abandoned after j items). After EVERY operation: documents deeply equal their snapshots; all contexts of the host chain have the same variables, function sets and exclusive names except $ of the context given to evaluate; converted results alias no host container (identity walk, then mutate-in-place and re-check); the same (statement, document, mode) gives the result of its first fault-free occurrence, also after aborted evaluations.',
    note='Trusted: snapshot code reading Context._data/_functions/_exclusive_funcs; aliasing only asserted for converted results; random() seeded, now()/localtz() excluded. Cross-run state (caches) is replayed through the process-history prelude.',
    technique='deterministic simulation of a host evaluation history with injected aborts (failing stream, raising host function, limit/quota trip, abandoned lazy result), deep-snapshot invariants after every step, history-independence oracle, shrinking + replay',
    quick_timeout=900, thorough_timeout=21600),
  'C18': dict(
    category='exploration', design_ref='DESIGN.md 3.7',
-   text='Seeded search over schedules at line granularity: 2-4 simulated host threads evaluate 1-3 (statement, document) pairs each, on one engine, each in its own child of one shared prepared context (one flavour goes through yaql.eval and its module-level caches). Statements: ~90 hand-written pipelines building stateful lazies (orderBy/thenBy, groupBy aggregators, memorize, join, def/let chains, regex, datetimes with offsets), the C09 statements, 740 harvested test expressions, introspective library calls; same or different statements per thread, equal or per-thread documents. The baton scheduler pre-empts between any two Python lines of yaql frames and at stream pulls, under three policies: random quanta (mean 3..3000 lines), PCT-style d switch points sized from the measured sequential run, and write-point targeting (switch right after a statically detected store into an attribute/subscript/global or a mutator call, sites weighted by rarity). Oracle: every result equals the run-alone result computed before the threads start; shared context chain snapshot unchanged. One run in four uses a cold context chain (fresh create_context(), oracle from a warm twin) so that first-use / lazy-initialisation races are reachable; the shared context also holds yaqlized host objects (fresh for the concurrent phase). Mismatches are confirmed by re-running the recorded schedule.',
+   text='Seeded search over schedules at line granularity: 2-4 simulated host threads evaluate 1-3 (statement, document) pairs each, on one engine, each in its own child of one shared prepared context (one flavour goes through yaql.eval and its module-level caches). Statements: ~90 hand-written pipelines building stateful lazies (orderBy/thenBy, groupBy aggregators, memorize, join, def/let chains, regex, datetimes with offsets), the C09 statements, 740 harvested test expressions, introspective library calls; same or different statements per thread, equal or per-thread documents. The baton scheduler pre-empts between any two Python lines of yaql frames and at stream pulls, under three policies: random quanta (mean 3..3000 lines), PCT-style d switch points sized from the measured sequential run, and write-point targeting (switch right after a statically detected store into an attribute/subscript/global or a mutator call, sites weighted by rarity). Oracle: every result equals the run-alone result computed before the threads start; shared context chain snapshot unchanged. One run in four uses a cold context chain (fresh create_context(), oracle from a warm twin) so that first-use / lazy-initialisation races are reachable; the shared context also holds yaqlized host objects (fresh for the concurrent phase). Every run-alone baseline and every concurrent phase runs in its own forked copy of the worker (nothing one evaluation leaves in a cache can reach another baseline; replays do not depend on earlier runs). A third of the runs are focused short traces (two threads, one statement family) over which single-switch schedules are swept systematically: right after rarely executed stores / global accesses / function entries (novelty first) or at seeded positions. Mismatches are confirmed by re-running the recorded schedule.',
    note='Trusted: baton scheduler and sys.settrace delivery; canonical overload-set order via simulator-assigned FunctionDefinition hashes; cyclic GC disabled inside a run; pre-emption only between Python lines of yaql frames (dependencies run atomically).',
    technique='deterministic simulation: seeded baton scheduler over real threads with sys.settrace line-level pre-emption (random / PCT / write-point policies), run-alone oracle + shared-context snapshot, schedule shrinking + replay',
    quick_timeout=1200, thorough_timeout=21600),
